@@ -388,7 +388,17 @@ func genScenario(g *Gen, pf scnProfile) Case {
 		if g.Chance(pf.pUsers, 100) && len(names) > 0 {
 			us := []interface{}{}
 			for k := 1 + g.Intn(2); k > 0; k-- {
-				us = append(us, []interface{}{hx(names[g.Intn(len(names))]), float64(g.Intn(4)),
+				who := names[g.Intn(len(names))]
+				if (cmd == "rename" || cmd == "rebase") && g.Chance(40, 100) {
+					// a user in a direct child of the target (the parent itself idle)
+					tgt := unhxs(st["args"])[0]
+					for _, l := range forest {
+						if l.base == tgt {
+							who = l.name
+						}
+					}
+				}
+				us = append(us, []interface{}{hx(who), float64(g.Intn(4)),
 					hx(g.Pick("build", "build/usr/lib", "overlayfs/upperdir/x", "overlayfs/workdir", "packages", "", "buildx", "generated/f", "overlayfs"))})
 			}
 			st["users"] = us
@@ -431,33 +441,41 @@ func genExhaustive(g *Gen, tier string, emit func(Case), mode string) {
 			continue
 		}
 		outs := obs["steps"].([]interface{})
-		// the step with the most fault points
-		best, bestN := -1, 0
+		// every step that passes fault points (at most four per scenario, the busiest first)
+		type cand struct{ idx, n int }
+		var cands []cand
 		for k, o := range outs {
-			if nn, _ := o.(map[string]interface{})["nops"].(float64); int(nn) > bestN {
-				best, bestN = k, int(nn)
+			if nn, _ := o.(map[string]interface{})["nops"].(float64); int(nn) > 0 {
+				cands = append(cands, cand{k, int(nn)})
 			}
 		}
-		if best < 0 {
-			continue
+		sort.Slice(cands, func(a, b int) bool { return cands[a].n > cands[b].n })
+		if len(cands) > 4 {
+			cands = cands[:4]
 		}
-		for k := 1; k <= bestN+1; k++ {
-			c := Case{"op": "scenario", "cfg": base["cfg"], "tree": base["tree"], "host": base["host"]}
-			ns := []interface{}{}
-			for j := 0; j <= best; j++ {
-				st := map[string]interface{}{}
-				for kk, vv := range steps[j].(map[string]interface{}) {
-					st[kk] = vv
-				}
-				delete(st, "childOrder")
-				if j == best {
-					st[mode] = float64(k)
-				}
-				ns = append(ns, st)
+		for _, cd := range cands {
+			best, bestN := cd.idx, cd.n
+			if bestN > 14 {
+				bestN = 14
 			}
-			ns = append(ns, obj("cmd", "probe", "args", hxs([]string{})))
-			c["steps"] = ns
-			emit(c)
+			for k := 1; k <= bestN+1; k++ {
+				c := Case{"op": "scenario", "cfg": base["cfg"], "tree": base["tree"], "host": base["host"]}
+				ns := []interface{}{}
+				for j := 0; j <= best; j++ {
+					st := map[string]interface{}{}
+					for kk, vv := range steps[j].(map[string]interface{}) {
+						st[kk] = vv
+					}
+					delete(st, "childOrder")
+					if j == best {
+						st[mode] = float64(k)
+					}
+					ns = append(ns, st)
+				}
+				ns = append(ns, obj("cmd", "probe", "args", hxs([]string{})))
+				c["steps"] = ns
+				emit(c)
+			}
 		}
 	}
 }
